@@ -418,6 +418,14 @@ func runC04(c *mc.Ctx) {
 			seedCases = append(seedCases, c04Seed{Net: n.Name, Len: L})
 		}
 	}
+	// every seed length 0..1100 and the lengths congruent to 16..64 modulo 2^16 (a length taken through
+	// a narrow integer type wraps into the legal range)
+	for L := 0; L <= 1100; L++ {
+		seedCases = append(seedCases, c04Seed{Net: "mainnet", Len: L})
+	}
+	for _, L := range []int{65536, 65536 + 15, 65536 + 16, 65536 + 32, 65536 + 64, 65536 + 65, 1<<24 + 32} {
+		seedCases = append(seedCases, c04Seed{Net: "mainnet", Len: L})
+	}
 	c.Space("seed lengths x nets", int64(len(seedCases)))
 	c.ParFor(int64(len(seedCases)), func(w *mc.W, i int64) {
 		w.State()
